@@ -456,8 +456,14 @@ def autotool(selector, undo=False):
     if undo:
         rval = rval.wrap_functions(_untooler)
     else:
-        rval = rval.wrap_functions(_tooler)
-        verify(rval)
+        tooled_sel = rval.wrap_functions(_tooler)
+        try:
+            verify(tooled_sel)
+        except BaseException:
+            # The selector is refused: do not leave its functions tooled
+            rval.wrap_functions(_untooler)
+            raise
+        rval = tooled_sel
     return rval
 
 
